@@ -63,6 +63,7 @@ class Voc:
         self.shas = F("shas", V, V, B)            # python `x in list`
         self.sidx = F("sidx", V, V, I)            # witness index of membership
         self.sconcat = F("sconcat", V, V, V)
+        self.distinct = F("nodup", V, B)       # list without two == elements
         # sets
         self.has = F("has", V, V, B)
         self.card = F("card", V, I)
@@ -212,6 +213,12 @@ class Voc:
                patterns=[self.sat(self.sconcat(s, s2), j)]),
             FA([s, s2, x], self.shas(self.sconcat(s, s2), x) == z3.Or(self.shas(s, x), self.shas(s2, x)),
                patterns=[self.shas(self.sconcat(s, s2), x)]),
+        ]
+        A += [
+            self.distinct(self.snil), self.distinct(self.tnil),
+            FA([s, e], self.distinct(self.sapp(s, e)) == z3.And(self.distinct(s), z3.Not(self.shas(s, e))), patterns=[self.distinct(self.sapp(s, e))]),
+            FA([s, i, j], z3.Implies(z3.And(self.distinct(s), 0 <= i, i < j, j < self.slen(s)), z3.Not(self.pyeq(self.sat(s, i), self.sat(s, j)))),
+               patterns=[z3.MultiPattern(self.distinct(s), self.sat(s, i), self.sat(s, j))]),
         ]
         # sets
         A += [
